@@ -140,6 +140,9 @@ func (g *G) Program(w *W, concrete bool) *Struct {
 	if g.F&FConflict != 0 && rapid.IntRange(0, 9).Draw(g.T, "conflict") == 0 {
 		g.InjectConflict(st, w)
 	}
+	if g.F&FDerived != 0 && rapid.IntRange(0, 2).Draw(g.T, "derived") == 0 {
+		g.addDerived(st, w)
+	}
 	if g.F&FRefTypes != 0 {
 		for _, d := range []string{"#I: int", "#S: string", "#N: number", "#B: bool"} {
 			l, v, _ := strings.Cut(d, ": ")
@@ -147,4 +150,62 @@ func (g *G) Program(w *W, concrete bool) *Struct {
 		}
 	}
 	return st
+}
+
+// addDerived appends fields x1, x2 whose values are arithmetic over the
+// top-level int fields. In a non-concrete program they stay incomplete
+// expressions, which is what the printer has to reproduce faithfully
+// (parentheses, operator precedence).
+func (g *G) addDerived(st *Struct, w *W) {
+	t := g.T
+	var ints []string
+	for _, f := range w.fields {
+		if f.w.kind == "int" {
+			ints = append(ints, f.label)
+		}
+	}
+	if len(ints) == 0 {
+		return
+	}
+	operand := func() string {
+		if rapid.IntRange(0, 2).Draw(t, "dconst") == 0 {
+			return fmt.Sprint(rapid.IntRange(1, 12).Draw(t, "dc"))
+		}
+		return rapid.SampledFrom(ints).Draw(t, "dref")
+	}
+	op := func() string { return rapid.SampledFrom([]string{"+", "-", "*", "-", "/"}).Draw(t, "dop") }
+	n := rapid.IntRange(1, 2).Draw(t, "nderived")
+	for i := 1; i <= n; i++ {
+		var e string
+		switch rapid.IntRange(0, 3).Draw(t, "dshape") {
+		case 0:
+			e = fmt.Sprintf("%s %s %s", operand(), op(), operand())
+		case 1:
+			e = fmt.Sprintf("%s %s (%s %s %s)", operand(), op(), operand(), op(), operand())
+		case 2:
+			e = fmt.Sprintf("(%s %s %s) %s %s", operand(), op(), operand(), op(), operand())
+		default:
+			e = fmt.Sprintf("%s %s (%s %s (%s %s %s))", operand(), op(), operand(), op(), operand(), op(), operand())
+		}
+		st.Decls = append(st.Decls, &Decl{Kind: "field", Label: fmt.Sprintf("x%d", i), Val: &Expr{Conj: []*Term{tx(e)}}})
+	}
+}
+
+// WitnessCUE renders the witness as concrete CUE data (a struct body).
+func WitnessCUE(w *W) string {
+	switch w.kind {
+	case "int", "string", "bool":
+		return w.lit()
+	case "list":
+		var s []string
+		for _, e := range w.elems {
+			s = append(s, WitnessCUE(e))
+		}
+		return "[" + strings.Join(s, ", ") + "]"
+	}
+	var s []string
+	for _, f := range w.fields {
+		s = append(s, f.label+": "+WitnessCUE(f.w))
+	}
+	return "{" + strings.Join(s, ", ") + "}"
 }
